@@ -1,1 +1,327 @@
-fn main(){}
+//! Generator: turns the abstract universe of `refmodel::spec` into Rust text (derive declarations
+//! with their `Bridge` impls, and the table of monomorphic entry points).
+use refmodel::spec::{self, Decl};
+use refmodel::*;
+use std::fmt::Write;
+
+fn rust_ty(t: &Ty) -> String {
+    match t {
+        Ty::U8 => "u8".into(),
+        Ty::I8 => "i8".into(),
+        Ty::U16 => "u16".into(),
+        Ty::I16 => "i16".into(),
+        Ty::U32 => "u32".into(),
+        Ty::I32 => "i32".into(),
+        Ty::U64 => "u64".into(),
+        Ty::I64 => "i64".into(),
+        Ty::Bool => "bool".into(),
+        Ty::Unit => "()".into(),
+        Ty::Str => "String".into(),
+        Ty::DedupStr => "desert::DeduplicatedString".into(),
+        Ty::ByteVec => "Vec<u8>".into(),
+        Ty::ByteArray(n) => format!("[u8; {n}]"),
+        Ty::Array(n, t) => format!("[{}; {n}]", rust_ty(t)),
+        Ty::Tuple(ts) => format!("({},)", ts.iter().map(rust_ty).collect::<Vec<_>>().join(", ")),
+        Ty::Opt(t) => match &**t {
+            Ty::Named(n) => format!("Option<Box<{n}>>"),
+            o => format!("Option<{}>", rust_ty(o)),
+        },
+        Ty::Seq(SeqKind::Vec, t) => format!("Vec<{}>", rust_ty(t)),
+        Ty::Record(rd) => rd.name.clone(),
+        Ty::Enum(ed) => ed.name.clone(),
+        Ty::Named(n) => n.clone(),
+        other => panic!("vgen: no Rust spelling for {other:?}"),
+    }
+}
+
+fn field_ty(f: &FieldDescr, spelling: u8) -> String {
+    match &f.ty {
+        Ty::Opt(inner) if !f.is_option => format!("OptAlias<{}>", rust_ty(inner)),
+        Ty::Opt(inner) => {
+            let inner = match &**inner {
+                Ty::Named(n) => format!("Box<{n}>"),
+                o => rust_ty(o),
+            };
+            match spelling {
+                1 => format!("std::option::Option<{inner}>"),
+                2 => format!("core::option::Option<{inner}>"),
+                _ => format!("Option<{inner}>"),
+            }
+        }
+        t => rust_ty(t),
+    }
+}
+
+fn rust_expr(t: &Ty, v: &Val) -> String {
+    match (t, v) {
+        (Ty::U8, Val::U(x)) => format!("{x}u8"),
+        (Ty::U16, Val::U(x)) => format!("{x}u16"),
+        (Ty::U32, Val::U(x)) => format!("{x}u32"),
+        (Ty::U64, Val::U(x)) => format!("{x}u64"),
+        (Ty::I32, Val::I(x)) => format!("{x}i32"),
+        (Ty::Bool, Val::Bool(b)) => format!("{b}"),
+        (Ty::Unit, _) => "()".into(),
+        (Ty::Str, Val::Str(s)) => format!("{s:?}.to_string()"),
+        (Ty::DedupStr, Val::Str(s)) => format!("desert::DeduplicatedString({s:?}.to_string())"),
+        (Ty::ByteVec, Val::Bytes(b)) => format!("vec![{}]", b.iter().map(|x| format!("{x}u8")).collect::<Vec<_>>().join(", ")),
+        (Ty::ByteArray(_), Val::Bytes(b)) => {
+            format!("[{}]", b.iter().map(|x| format!("{x}u8")).collect::<Vec<_>>().join(", "))
+        }
+        (Ty::Array(_, t), Val::Seq(xs)) => format!("[{}]", xs.iter().map(|x| rust_expr(t, x)).collect::<Vec<_>>().join(", ")),
+        (Ty::Seq(SeqKind::Vec, t), Val::Seq(xs)) => {
+            format!("vec![{}]", xs.iter().map(|x| rust_expr(t, x)).collect::<Vec<_>>().join(", "))
+        }
+        (Ty::Tuple(ts), Val::Tuple(xs)) => {
+            format!("({},)", ts.iter().zip(xs).map(|(t, x)| rust_expr(t, x)).collect::<Vec<_>>().join(", "))
+        }
+        (Ty::Opt(_), Val::Opt(None)) => "None".into(),
+        (Ty::Opt(t), Val::Opt(Some(x))) => format!("Some({})", rust_expr(t, x)),
+        (Ty::Record(rd), Val::Rec(xs)) => {
+            if rd.fields.is_empty() {
+                format!("{} {{}}", rd.name)
+            } else {
+                let fs: Vec<String> =
+                    rd.fields.iter().zip(xs).map(|(f, x)| format!("{}: {}", f.name, rust_expr(&f.ty, x))).collect();
+                format!("{} {{ {} }}", rd.name, fs.join(", "))
+            }
+        }
+        (Ty::Enum(ed), Val::Enum(i, xs)) => {
+            let var = &ed.variants[*i];
+            match var.shape {
+                0 => format!("{}::{}", ed.name, var.name),
+                1 => format!(
+                    "{}::{}({})",
+                    ed.name,
+                    var.name,
+                    var.record.fields.iter().zip(xs).map(|(f, x)| rust_expr(&f.ty, x)).collect::<Vec<_>>().join(", ")
+                ),
+                _ => format!(
+                    "{}::{} {{ {} }}",
+                    ed.name,
+                    var.name,
+                    var.record
+                        .fields
+                        .iter()
+                        .zip(xs)
+                        .map(|(f, x)| format!("{}: {}", f.name, rust_expr(&f.ty, x)))
+                        .collect::<Vec<_>>()
+                        .join(", ")
+                ),
+            }
+        }
+        (t, v) => panic!("vgen: no Rust literal for {v:?} : {t:?}"),
+    }
+}
+
+fn evolution_attr(rd: &RecordDescr) -> String {
+    if rd.steps.is_empty() {
+        return String::new();
+    }
+    let mut parts = Vec::new();
+    for s in &rd.steps {
+        parts.push(match s {
+            Step::Added(n) => {
+                // the default is an expression of the field's *current* type
+                let f = rd.fields.iter().find(|f| &f.name == n);
+                let d = match f {
+                    Some(f) => rust_expr(&f.ty, f.default.as_ref().expect("added field default")),
+                    // the added field was removed again later: any expression will do
+                    None => "()".to_string(),
+                };
+                format!("FieldAdded({n:?}, {d})")
+            }
+            Step::MadeOptional(n) => format!("FieldMadeOptional({n:?})"),
+            Step::Removed(n) => format!("FieldRemoved({n:?})"),
+            Step::MadeTransient(n) => format!("FieldMadeTransient({n:?})"),
+        });
+    }
+    format!("#[evolution({})]\n", parts.join(", "))
+}
+
+fn emit_struct(d: &Decl, rd: &RecordDescr, out: &mut String) {
+    let name = &d.name;
+    writeln!(out, "#[derive(desert::BinaryCodec)]").unwrap();
+    out.push_str(&evolution_attr(rd));
+    if d.tags.contains(&"unit") {
+        writeln!(out, "pub struct {name};").unwrap();
+    } else {
+        writeln!(out, "pub struct {name} {{").unwrap();
+        for f in &rd.fields {
+            if let Some(dv) = &f.transient {
+                writeln!(out, "    #[transient({})]", rust_expr(&f.ty, dv)).unwrap();
+            }
+            writeln!(out, "    pub {}: {},", f.name, field_ty(f, d.opt_spelling)).unwrap();
+        }
+        writeln!(out, "}}").unwrap();
+    }
+    writeln!(out, "impl Bridge for {name} {{").unwrap();
+    writeln!(out, "    fn ty() -> Ty {{ refmodel::spec::decl_ty({name:?}, THOROUGH) }}").unwrap();
+    let tv: Vec<String> = rd.fields.iter().map(|f| format!("self.{}.to_val()", f.name)).collect();
+    writeln!(out, "    fn to_val(&self) -> Val {{ Val::Rec(vec![{}]) }}", tv.join(", ")).unwrap();
+    if d.tags.contains(&"unit") {
+        writeln!(out, "    fn from_val(_: &Val) -> Self {{ {name} }}").unwrap();
+    } else {
+        let fv: Vec<String> =
+            rd.fields.iter().enumerate().map(|(i, f)| format!("{}: Bridge::from_val(&f[{i}])", f.name)).collect();
+        writeln!(out, "    fn from_val(v: &Val) -> Self {{ let f = v.items(); {name} {{ {} }} }}", fv.join(", ")).unwrap();
+    }
+    writeln!(out, "}}\n").unwrap();
+}
+
+fn emit_enum(d: &Decl, ed: &EnumDescr, out: &mut String) {
+    let name = &d.name;
+    writeln!(out, "#[derive(desert::BinaryCodec)]").unwrap();
+    if ed.sorted {
+        writeln!(out, "#[sorted_constructors]").unwrap();
+    }
+    writeln!(out, "pub enum {name} {{").unwrap();
+    for v in &ed.variants {
+        if v.transient {
+            writeln!(out, "    #[transient]").unwrap();
+        }
+        let ev = evolution_attr(&v.record);
+        if !ev.is_empty() {
+            write!(out, "    {ev}").unwrap();
+        }
+        match v.shape {
+            0 => writeln!(out, "    {},", v.name).unwrap(),
+            1 => writeln!(
+                out,
+                "    {}({}),",
+                v.name,
+                v.record.fields.iter().map(|f| field_ty(f, 1)).collect::<Vec<_>>().join(", ")
+            )
+            .unwrap(),
+            _ => writeln!(
+                out,
+                "    {} {{ {} }},",
+                v.name,
+                v.record.fields.iter().map(|f| format!("{}: {}", f.name, field_ty(f, 0))).collect::<Vec<_>>().join(", ")
+            )
+            .unwrap(),
+        }
+    }
+    writeln!(out, "}}").unwrap();
+    writeln!(out, "impl Bridge for {name} {{").unwrap();
+    writeln!(out, "    fn ty() -> Ty {{ refmodel::spec::decl_ty({name:?}, THOROUGH) }}").unwrap();
+    writeln!(out, "    fn to_val(&self) -> Val {{ match self {{").unwrap();
+    for (i, v) in ed.variants.iter().enumerate() {
+        let names: Vec<String> = v.record.fields.iter().map(|f| f.name.clone()).collect();
+        let vals: Vec<String> = names.iter().map(|n| format!("{n}.to_val()")).collect();
+        match v.shape {
+            0 => writeln!(out, "        {name}::{} => Val::Enum({i}, vec![]),", v.name).unwrap(),
+            1 => writeln!(out, "        {name}::{}({}) => Val::Enum({i}, vec![{}]),", v.name, names.join(", "), vals.join(", "))
+                .unwrap(),
+            _ => writeln!(out, "        {name}::{} {{ {} }} => Val::Enum({i}, vec![{}]),", v.name, names.join(", "), vals.join(", "))
+                .unwrap(),
+        }
+    }
+    writeln!(out, "    }} }}").unwrap();
+    writeln!(out, "    fn from_val(v: &Val) -> Self {{ match v {{").unwrap();
+    for (i, v) in ed.variants.iter().enumerate() {
+        let args: Vec<String> = (0..v.record.fields.len()).map(|j| format!("Bridge::from_val(&f[{j}])")).collect();
+        match v.shape {
+            0 => writeln!(out, "        Val::Enum({i}, _) => {name}::{},", v.name).unwrap(),
+            1 => writeln!(out, "        Val::Enum({i}, f) => {name}::{}({}),", v.name, args.join(", ")).unwrap(),
+            _ => writeln!(
+                out,
+                "        Val::Enum({i}, f) => {name}::{} {{ {} }},",
+                v.name,
+                v.record.fields.iter().zip(&args).map(|(f, a)| format!("{}: {a}", f.name)).collect::<Vec<_>>().join(", ")
+            )
+            .unwrap(),
+        }
+    }
+    writeln!(out, "        o => panic!(\"from_val {name}: {{o:?}}\"),").unwrap();
+    writeln!(out, "    }} }}").unwrap();
+    writeln!(out, "}}\n").unwrap();
+}
+
+const PARTS: usize = 8;
+
+fn main() {
+    let args: Vec<String> = std::env::args().collect();
+    let thorough = args.iter().any(|a| a == "--thorough");
+    let out_dir = args.iter().position(|a| a == "--out").map(|i| args[i + 1].clone()).expect("--out <universe dir>");
+    let u = spec::universe(thorough);
+    let exprs = spec::type_exprs(thorough);
+    let helpers = ["N0", "N1", "NE"];
+    for part in 0..PARTS {
+        let mut out = String::new();
+        writeln!(out, "// @generated by vgen from refmodel::spec (thorough = {thorough}, part {part}); do not edit").unwrap();
+        writeln!(out, "use bridge::{{Bridge, Entry, entry, entry_vec, derived}};").unwrap();
+        writeln!(out, "use refmodel::{{Ty, Val}};").unwrap();
+        writeln!(out, "pub const THOROUGH: bool = {thorough};").unwrap();
+        writeln!(out, "/// an alias hides the `Option` name from the derive macro's detection").unwrap();
+        writeln!(out, "pub type OptAlias<T> = Option<T>;\n").unwrap();
+        let mut lines: Vec<String> = Vec::new();
+        for (i, e) in exprs.iter().enumerate() {
+            if i % PARTS != part {
+                continue;
+            }
+            let mut tags: Vec<&str> = Vec::new();
+            if e.zero_width_elem {
+                tags.push("zero_width_elem");
+            }
+            if e.zero_width {
+                tags.push("zero_width");
+            }
+            let tag_s = tags.iter().map(|t| format!("{t:?}")).collect::<Vec<_>>().join(", ");
+            let ctor = match &e.vec_of {
+                Some(t) => format!("entry_vec::<{t}>({:?})", e.rust),
+                None => format!("entry::<{}>({:?})", e.rust, e.rust),
+            };
+            lines.push(format!("{{ let mut e = {ctor}; e.tags = vec![{tag_s}]; v.push(e); }}"));
+        }
+        let mut k = 0usize;
+        for d in &u.decls {
+            let is_helper = helpers.contains(&d.name.as_str());
+            if !is_helper {
+                k += 1;
+                if k % PARTS != part {
+                    continue;
+                }
+            }
+            match &d.ty {
+                Ty::Record(rd) => emit_struct(d, rd, &mut out),
+                Ty::Enum(ed) => emit_enum(d, ed, &mut out),
+                _ => unreachable!(),
+            }
+            // helper declarations are repeated in every part; their table row comes from part 0
+            if !is_helper || part == 0 {
+                let tag_s = d.tags.iter().map(|t| format!("{t:?}")).collect::<Vec<_>>().join(", ");
+                lines.push(format!("v.push(derived::<{}>({:?}, &[{tag_s}]));", d.name, d.name));
+            }
+        }
+        // entry tables, in chunks (huge functions compile slowly)
+        let chunk = 40;
+        let n_chunks = (lines.len() + chunk - 1) / chunk;
+        for (ci, c) in lines.chunks(chunk).enumerate() {
+            writeln!(out, "#[inline(never)]\nfn entries_{ci}(v: &mut Vec<Entry>) {{").unwrap();
+            for l in c {
+                writeln!(out, "    {l}").unwrap();
+            }
+            writeln!(out, "}}").unwrap();
+        }
+        writeln!(out, "pub fn entries() -> Vec<Entry> {{\n    let mut v = Vec::new();").unwrap();
+        for ci in 0..n_chunks {
+            writeln!(out, "    entries_{ci}(&mut v);").unwrap();
+        }
+        writeln!(out, "    v\n}}").unwrap();
+        let dir = format!("{out_dir}/parts/p{part}/src");
+        std::fs::create_dir_all(&dir).expect("mkdir");
+        let file = format!("{dir}/generated_{}.rs", if thorough { "thorough" } else { "quick" });
+        // leave the file alone when nothing changed, so cargo does not rebuild the part
+        if std::fs::read_to_string(&file).ok().as_deref() != Some(out.as_str()) {
+            std::fs::write(&file, out).expect("write generated file");
+        }
+    }
+    eprintln!(
+        "vgen: {} type expressions, {} derive declarations ({} histories), thorough={}, {} parts",
+        exprs.len(),
+        u.decls.len(),
+        u.histories.len(),
+        thorough,
+        PARTS
+    );
+}
